@@ -3,11 +3,16 @@
 // E2 (wire.go): the effect on the wire for CON/NON requests over datagram and stream connections.
 package main
 
-import "verif/ev"
+import (
+	"verif/ev"
+	"verif/mcx"
+)
 
 func main() {
 	r := ev.Start("C20", "exploration")
-	runTable(r)
+	if !mcx.IsWorker() && ev.Arg("replay") == "" {
+		runTable(r)
+	}
 	runWire(r)
 	r.Set("exhaustive", true)
 	r.Set("rule", "table: every No-Response value in 0..63 plus {127,128,255,256,258,264,272,2^16,2^16+26,2^32-1} x all 256 codes, for noresponse.IsNoResponseCode and for ResponseWriter.SetResponse of a request carrying the option; plus all 256 codes without the option. Non-trivial = (value, code) pairs the RFC marks as suppressed (each distinct). Oracle: class = code>>5; suppressed iff (class 2 and bit 2) or (class 4 and bit 8) or (class 5 and bit 16).")
